@@ -8,6 +8,7 @@ For every property (default all 20) creates
 Nothing from /verif's machinery (rules, DESIGN, evidence) goes into the brief."""
 import glob, json, os, subprocess, sys
 suffix = sys.argv[1]
+KEEP = suffix.startswith("k")      # "k<n>" waves ask for property-PRESERVING functional changes (false-alarm probes)
 props = {json.loads(l)["id"]: json.loads(l) for l in open("/verif/properties.jsonl")}
 sel = sys.argv[2:] or sorted(props)
 os.makedirs("/tmp/seed/wt", exist_ok=True); os.makedirs("/tmp/seed/out", exist_ok=True); os.makedirs("/tmp/seed/prompts", exist_ok=True)
@@ -68,6 +69,36 @@ DELIVERABLES, all in {out}/ :
                 "ran": "<the commands you ran and what they showed: demo on unmodified tree, demo with change, test suite with change>"}}
 Before finishing: verify demo.py exits 0 with the change reverted (use `git -C {wt} diff > /tmp/x.diff; git -C {wt} apply -R /tmp/x.diff` and re-apply with `git apply`; do NOT use `git stash`: the stash is shared with other reviewers' worktrees) and non-zero with it, and that the test suite shows
 no new failure with the change. Leave the change applied in the worktree when you finish. Your final message: a two-line summary only.
+"""
+    if KEEP:
+        txt = f"""You are a contributor to the open-source project enjoy-digital/litedram (a Migen/Python generator of a DRAM controller). A scratch git worktree of it is at
+{wt} (work ONLY there; never touch /repo or /verif, do not read anything under /verif). Python with all dependencies: /venv/bin/python
+(run tests from the worktree root, e.g. `cd {wt} && /venv/bin/python -m pytest -q -p no:cacheprovider test/test_bankmachine.py`; pytest-xdist is
+available: `-n 4`). There is no network. Do NOT use `git stash` (it is shared with other contributors' worktrees); use `git diff > file` / `git apply -R file`.
+
+A PROPERTY THE PROJECT RELIES ON:
+{json.dumps(pr, indent=1)}
+
+YOUR TASK: write THREE independent, realistic changes to the source under litedram/ in the files / mechanisms this property is anchored in. Each change must
+ALTER the implementation in a way that is NOT a pure renaming / re-formatting - e.g. an optimisation (one cycle saved, a register added or removed with the
+bookkeeping adjusted accordingly), an alternative but equivalent implementation of a counter / pointer / handshake / address computation, a small extra
+feature or parameter, a defensive extra condition, logic moved between modules, a table restructured - and the property above MUST STILL HOLD after each
+change, for every input / schedule / configuration it quantifies over. Prefer changes that touch exactly the logic the property depends on (that is what
+makes them interesting), and make the three changes different in kind. Each change: a few lines up to ~40 lines, plausible as a real commit.
+For each change k = 1, 2, 3 (each one separately, against the unmodified tree):
+  - the existing test suite must show no new failure: `cd {wt} && /venv/bin/python -m pytest -q -p no:cacheprovider --timeout=900 -n 4 test/` (on the unmodified tree some
+    tests already fail for missing tools - test_lpddr4, test_lpddr5, test_bandwidth, test_init, test_examples, some test_ecc / test_bist csr tests; ignore those);
+    running only the test files that exercise the changed module plus one full run at the end is fine;
+  - write a check script keep_k.py that drives the REAL code (migen.sim run_simulation or plain Python) hard enough to give good confidence that the property
+    still holds with the change (randomised traffic / exhaustive small configurations / comparison against the unmodified behaviour), exits 0 with the change
+    applied. If you cannot convince yourself that the property still holds, drop that change and write another one.
+Do not edit anything under test/.
+
+DELIVERABLES, all in {out}/ :
+  keep_1.diff, keep_2.diff, keep_3.diff   each a `git diff` against the UNMODIFIED tree (must apply alone with `git apply`)
+  keep_1.py, keep_2.py, keep_3.py         the check scripts (add os.getcwd() to sys.path; they are run from the root of a tree with the diff applied)
+  meta.json   {{"changes": [{{"file": "litedram/...", "summary": "<what was changed>", "why_property_still_holds": "<argument, 2-5 sentences>", "ran": "<what you ran>"}}, ...3 entries]}}
+Leave the worktree unmodified (all changes reverted) when you finish. Your final message: a three-line summary only.
 """
     open("/tmp/seed/prompts/%s.txt" % name, "w").write(txt)
     print(name, len(used), "earlier ideas")
